@@ -9,6 +9,42 @@ def strs(row):
     return [x.get("v") if isinstance(x, dict) else None for x in row]
 
 
+def import_fault_family(ctx, znh, rnd):
+    """a fault raised by a top-level statement of a module WHILE IT IS IMPORTED (ZnModuleFault): the bodies that ran before, and a report that
+    names the faulting module's line and then the load stack.  Used by C15 (load order / once) and C18 (error location and chain)."""
+    # ---- a fault raised by a top-level statement of a module WHILE IT IS IMPORTED (ZnModuleFault): the bodies that ran before, and a report
+    # that names the faulting module's line and then the load stack - every module waiting in one of its import statements, with that
+    # statement's line, the main file last
+    ftxt, _ = common.tlc(ctx, "ZnModuleFault", "MC_ZnModuleFault.cfg", timeout=900)
+    fvecs = [v for v in common.vectors(ftxt, "modfault") if v["res"] == "fault"]
+    if len(fvecs) < 2000:
+        raise common.NoVerdict("too few module-fault vectors: %d" % len(fvecs))
+    fsel = fvecs if ctx.tier != "quick" else rnd.sample(fvecs, min(len(fvecs), 1500))
+    fcases = [dict(id=i, edges=v["edges"], main=v["main"], mods=["a", "b", "c"], extra="", bad=v["bad"]) for i, v in enumerate(fsel)]
+    fres = common.run_harness(ctx, znh, "module", fcases, timeout=2500)
+    if len(fres) != len(fcases):
+        raise common.NoVerdict("harness returned %d/%d" % (len(fres), len(fcases)))
+    for r in fres:
+        v = fsel[r["id"]]
+        def rep(k2, what):
+            common.report(ctx, "import-fault:%s" % k2, "import digraph %s (main imports %s), the body of module %s faults: %s" % (v["edges"], v["main"], v["bad"], what), dict(spec=v, result=r))
+        if r["obs"] in ("panic", "timeout", "exit", "harness-error"):
+            rep(r["obs"], "%s %s" % (r["obs"], r.get("detail", "")[:200])); continue
+        d = [strs(x) for x in r.get("display") or []]
+        bodies = [x[0][5:] for x in d if len(x) == 1 and x[0] and x[0].startswith("body-")]
+        if r["obs"] != "error" or r.get("code") != 90:
+            rep("not-reported", "spec: the run ends with the fault of that body after bodies %s; interpreter: %s [%s] %s, bodies %s" % (v["trace"], r["obs"], r.get("code"), r.get("msg"), bodies)); continue
+        if bodies != v["trace"]:
+            rep("bodies-before-fault", "bodies that ran before the fault %s, spec %s" % (bodies, v["trace"])); continue
+        # expected chain, innermost first: (bad, line of the faulting statement), then every waiting module with the line of its import statement
+        imps = lambda m: list(v["main"]) if m == "main" else sorted(set(e[1] for e in v["edges"] if e[0] == m))
+        want = [(v["bad"], r["badline"])] + [(fr["m"], fr["at"]) for fr in reversed(v["report"][:-1])]
+        got = list(zip(r.get("chainm") or [], r.get("chain") or []))
+        if got != want and got != list(reversed(want)):       # (either order of the entries is accepted)
+            rep("chain", "the report names %s (module, line; innermost first), the load stack of the specification is %s" % (got, want))
+    return fcases
+
+
 def run(ctx):
     znh = common.build_harness(ctx)
     rnd = random.Random(ctx.seed)
@@ -154,6 +190,7 @@ def run(ctx):
                           (c["edges"], c["main"], at - st[0], lines[at - 1], [json.loads(x)["e"] + ":" + (json.loads(x)["m"] or json.loads(x)["r"]) for x in lines[st[0]:st[0] + 16]]), dict(case=c, log=lines[st[0] - 1:at + 2]))
         else:
             raise common.NoVerdict("Trace_ZnModule failed unexpectedly:\n" + common.tail(ttxt))
+    cases = cases + import_fault_family(ctx, znh, rnd)
     # ---- export facet (ZnExport): import everything / every selective list of <= 4 names in every written order ----
     ntxt, _ = common.tlc(ctx, "ZnExport", "MC_ZnExport.cfg", timeout=600)
     ltxt, _ = common.tlc(ctx, "ZnExport", "MC_ZnExport_lib.cfg", timeout=600)
@@ -195,6 +232,6 @@ def run(ctx):
                     "imported modules x four import lists (TLC checks the invariants on all 262144; quick replays a seeded 6000 of them, thorough all), plus all digraphs on two modules with a missing third one (576): TLC runs the depth-first load machine (invariants: body at most once, imports before body, circular error iff a cycle "
                     "is reachable - against an independent transitive-closure definition) and emits body trace and result; each vector becomes a directory of .zn files with "
                     "1-3 path segments, executed with LoadFile().Execute: body order/multiplicity, error code 63/60, and five probes per module (an imported method, a handler block of an imported method, a body "
-                    "constructing the module's type and a method of that type must all be able to use their own module's names, and a method that calls what its module imported - methods of the modules it imports, a library function - gives from the importer what it gives at home; modules not imported by main are not visible); the three-module digraphs again under other module names (1-4 path segments; dots, digits, Latin letters, underscores inside a segment), with one module file made of import statements only, and with the library 《@JSON》 imported by every file; plus 8 export/read-only/selective-import probe programs; TRACE VALIDATION: the loader's own events (script-frame pushes / pops through the H2 hook, body markers, outcome) of 2500 (all 7680) digraph runs are validated by TLC against Trace_ZnModule (ZnModule's actions, silent steps for already-loaded imports, invariants after every event); export facet (ZnExport): import-all and every selective list of <= 4 distinct names over {method, helper method, type, module variable, unknown name} in every written order (206), every PAIR of import statements of the same module with lists <= 2 (676: the second statement adds its names), the same for the library 《@JSON》 (16 + 100) - usable names = exported names that are listed, every usable name refuses assignment",
+                    "constructing the module's type and a method of that type must all be able to use their own module's names, and a method that calls what its module imported - methods of the modules it imports, a library function - gives from the importer what it gives at home; modules not imported by main are not visible); the three-module digraphs again under other module names (1-4 path segments; dots, digits, Latin letters, underscores inside a segment), with one module file made of import statements only, and with the library 《@JSON》 imported by every file; plus 8 export/read-only/selective-import probe programs; IMPORT-TIME FAULTS (ZnModuleFault): for 1500 (all 2517) runs (digraph, main import list, module whose body faults while it is imported) the bodies that ran before and the error report = the faulting line + the load stack (each waiting module with the line of its import statement); TRACE VALIDATION: the loader's own events (script-frame pushes / pops through the H2 hook, body markers, outcome) of 2500 (all 7680) digraph runs are validated by TLC against Trace_ZnModule (ZnModule's actions, silent steps for already-loaded imports, invariants after every event); export facet (ZnExport): import-all and every selective list of <= 4 distinct names over {method, helper method, type, module variable, unknown name} in every written order (206), every PAIR of import statements of the same module with lists <= 2 (676: the second statement adds its names), the same for the library 《@JSON》 (16 + 100) - usable names = exported names that are listed, every usable name refuses assignment",
                spec_outcomes=outcomes)
     return cov, ["import order inside a module is alphabetical (the generator writes it that way)", "four modules: exhaustive in the thorough tier, a TLC-seeded sample in the quick tier"]
